@@ -201,6 +201,14 @@ def random_lvdag(rng, n=None):
     """Random DAG description {"nodes": [...], "latent": [...], "edges": [[u,v]..]} with hostile quotas."""
     n = n or rng.randint(3, 7)
     names = [f"N{i}" for i in range(n)]
+    style = rng.random()
+    if style < 0.12:
+        # names that look like the ones the transformation itself makes up (<latent>_prime), without clashing
+        names = [f"K{i}_prime" if rng.random() < 0.5 else f"N{i}" for i in range(n)]
+    elif style < 0.2 and ALLOW_PRIME_CLASH:
+        # ... and clashing: a node is already called what the replacement of another latent would be called
+        j = rng.randrange(n - 1)
+        names[j + 1] = names[j] + "_prime"
     order = names[:]
     rng.shuffle(order)
     p = rng.choice([0.25, 0.4, 0.6])
@@ -251,13 +259,31 @@ def random_lvdag(rng, n=None):
     return {"nodes": ins, "latent": sorted(latent), "edges": edges, "cls": cls}
 
 
+ALLOW_PRIME_CLASH = True
+TAG_REPS = ("bool", "int", "numpy.bool_")
+
+
+def _tag_value(flag, rep):
+    if rep == "int":
+        return int(flag)
+    if rep == "numpy.bool_":
+        import numpy
+
+        return numpy.bool_(flag)
+    return bool(flag)
+
+
 def build_dag(dd, tag=TAG):
+    """The LV-DAG as a caller would hold it; the latent mark is a Python bool, or - as a graph loaded from a table or an
+    array mask would carry it - 0/1 or numpy.bool_ (chosen by a checksum of the description)."""
     import networkx as nx
     from y0.dsl import Variable
 
+    rep = dd.get("tag_rep") or TAG_REPS[sum(map(ord, "".join(dd["nodes"]) + "".join(dd["latent"]))) % 5 % 3]
+    kernel.count("C16:tag-representation:" + rep)
     g = nx.DiGraph()
     for n in dd["nodes"]:
-        g.add_node(Variable(n), **{tag: n in dd["latent"]})
+        g.add_node(Variable(n), **{tag: _tag_value(n in dd["latent"], rep)})
     for u, v in dd["edges"]:
         g.add_edge(Variable(u), Variable(v))
     return g
